@@ -50,7 +50,7 @@ def valOf : Val → String
     "m" ++ (if v.isEmpty then "-" else ",".intercalate (keys.map fun k => hexOf k ++ "=" ++ hexOf ((lookup k v).getD [])))
 
 def perrOf : PErr → String
-  | .wrongValue n _ => "wrongValue:" ++ hexOf n
+  | .wrongValue n v => "wrongValue:" ++ hexOf n ++ ":" ++ listOf v
   | .convInt a t => "convInt:" ++ hexOf a ++ ":" ++ hexOf t
   | .convFloat a t => "convFloat:" ++ hexOf a ++ ":" ++ hexOf t
   | .notKeyValue a => "notKeyValue:" ++ hexOf a
@@ -79,7 +79,11 @@ def viewOf (P : Prog) (n : Nat) (pfx : String) : String :=
        | none => "nil"))
 
 def optsOf (P : Prog) : String :=
-  " ".intercalate ((List.range P.opts.length).map fun i => "o" ++ toString i ++ "=" ++ optTriple (P.opt i))
+  " ".intercalate ((List.range P.opts.length).map fun i => "p" ++ toString i ++ "=" ++ valOf (P.opt i).value)
+
+/-- the table views of every node that has a script handle -/
+def viewsOf (P : Prog) (handles : List Nat) : String :=
+  " ".intercalate ((List.range handles.length).map fun h => viewOf P (handles.getD h 0) ("n" ++ toString h ++ "."))
 
 def pathNames (P : Prog) (n : Nat) : String := listOf ((P.path n).map fun i => (P.node i).name)
 
@@ -152,7 +156,7 @@ structure DState where
   rootName : Str := b "prog"
   floats : List Str := []
   script : List DefOp := []
-  prog : Option (Except DefErr Prog) := none
+  prog : Option (Except DefErr BState) := none
   parsed : Option ParseOut := none
   dag : GoModel.Dag.DriverState := {}
 
@@ -168,11 +172,11 @@ def DState.ext (d : DState) : Ext := {
   hdrArguments := d.hdr.getD 4 []
   hdrOptions := d.hdr.getD 5 [] }
 
-def DState.getProg (d : DState) : DState × Except DefErr Prog :=
+def DState.getProg (d : DState) : DState × Except DefErr BState :=
   match d.prog with
   | some p => (d, p)
   | none =>
-    let p := build d.ext d.env d.rootName d.script
+    let p := buildB d.ext d.env d.rootName d.script
     ({ d with prog := some p }, p)
 
 def defErrOf : DefErr → String
@@ -230,12 +234,13 @@ def handleLine (d : DState) (line : String) : DState × Option String :=
       let (d, p) := d.getProg
       match p with
       | .error e => (d, some ("P st=deferr err=" ++ defErrOf e))
-      | .ok P =>
+      | .ok B =>
+        let P := B.P
         let r := parseUser d.ext P args
         let st := match r.err with | some e => "st=err err=" ++ uerrOf e | none => "st=ok"
         let rem := match r.remaining with | some l => listOf l | none => "nil"
         ({ d with parsed := some r },
-         some s!"P {st} rem={rem} warn={listOf r.warnings} final={pathNames r.st.P r.st.cur} {optsOf r.st.P} {viewOf r.st.P 0 "rv."}")
+         some s!"P {st} rem={rem} warn={listOf r.warnings} final={pathNames r.st.P r.st.cur} {optsOf r.st.P} {viewsOf r.st.P B.handles}")
   | ["dispatch"] =>
     match d.parsed with
     | none => (d, some "D none")
@@ -255,7 +260,8 @@ def handleLine (d : DState) (line : String) : DState × Option String :=
     -- help of the final node after parse (`Help()`), or of the root when nothing was parsed
     let (d, p) := d.getProg
     match p, secs.mapM sectionOf with
-    | .ok P, some secs =>
+    | .ok B, some secs =>
+      let P := B.P
       let (P', n) := match d.parsed with
         | some r => (r.st.P, r.st.cur)
         | none => (P, 0)
@@ -267,8 +273,8 @@ def handleLine (d : DState) (line : String) : DState × Option String :=
       let (d, p) := d.getProg
       match p with
       | .error e => (d, some ("C st=deferr err=" ++ defErrOf e))
-      | .ok P =>
-        match completeUser d.ext P (z == "1") cl args with
+      | .ok B =>
+        match completeUser d.ext B.P (z == "1") cl args with
         | .candidates l => (d, some ("C c=cands list=" ++ listOf l))
         | .error e => (d, some ("C c=err err=" ++ perrOf e))
     | _, _ => (d, some "bad-op")
@@ -286,7 +292,7 @@ partial def loop (h : IO.FS.Stream) (out : IO.FS.Stream) (d : DState) : IO Unit 
   if line.isEmpty then return ()
   let (d', o) := handleLine d line
   match o with
-  | some s => out.putStrLn s
+  | some s => out.putStrLn s; out.flush
   | none => pure ()
   loop h out d'
 
